@@ -3,7 +3,7 @@ CONSTANTS
   EstimatorSet <- GaussianOnly
   DistrictKinds <- BothKinds
   EstimandSet <- VoteCounts
-  AlphaSet <- Alphas5
+  AlphaSet <- Alphas6
   AggSet <- Aggs5
   MaxEsts = 3
   MaxAlphas = 2
